@@ -500,6 +500,11 @@ func (s *Server) blobUploadPatch(repoStr, sessionID string) http.HandlerFunc {
 		// write bytes to blob
 		body := &bodyReader{r: r.Body}
 		_, err = io.Copy(bc, body)
+		if err == nil {
+			// a chunk is only acknowledged for a session that still exists when the last of it has arrived,
+			// an empty write verifies that (the session may have been cancelled or expired meanwhile)
+			_, err = bc.Write(nil)
+		}
 		if err != nil {
 			if body.err != nil {
 				// the request body could not be read, the session keeps what was received
